@@ -127,6 +127,25 @@ def generate(rng: random.Random, tier: str):
         yield from cases_for_schema(rng, sc, info, {"spec": spec}, docs, 12, 30, 6, "generated")
 
 
+    # create_and_fill with PART of a valid node's content (a prefix, a suffix or a middle piece dropped): the library
+    # must fill in what is missing before AND after the given content, in the right order
+    for fam in gen.FAMILY:
+        sc = gen.family(fam)
+        info = info_for(fam)
+        g = gen.DocGen(sc, rng)
+        docs = [g.doc(rng.randint(2, 4)) for _ in range(4 if quick else 30)]
+        yield from partial_content_cases(rng, info, fam, docs, 30 if quick else 300, "family-partial")
+    for k in range(12 if quick else 150):
+        sc, spec = generated_schema(rng)
+        if sc is None:
+            continue
+        info = SchemaInfo(sc)
+        try:
+            g = gen.DocGen(sc, rng)
+            docs = [g.doc(3) for _ in range(3)]
+        except Exception:  # noqa: BLE001
+            continue
+        yield from partial_content_cases(rng, info, {"spec": spec}, docs, 8, "generated-partial")
     # wrapper chains: schemas in which a wrapper's first child is (not) followed by further required siblings, so
     # that "each wrapper may hold the next wrapper as its ONLY child" decides which chain, if any, fits
     for k in range(10 if quick else 120):
@@ -137,6 +156,25 @@ def generate(rng: random.Random, tier: str):
         for m in list(info.states):
             for ty in sc.nodes.values():
                 yield wrap_case(info, {"spec": spec}, m, ty, "wrappers")
+
+
+def partial_content_cases(rng, info, tag, docs, n, kind):
+    nodes = []
+    for d in docs:
+        nodes.append(d)
+        d.descendants(lambda nd, *_: nodes.append(nd))
+    nodes = [nd for nd in nodes if not nd.is_text and nd.child_count >= 1]
+    if not nodes:
+        return
+    for _ in range(n):
+        nd = rng.choice(nodes)
+        i = rng.randint(0, nd.child_count)
+        j = rng.randint(i, nd.child_count)
+        if rng.random() < 0.5:
+            i = 0 if rng.random() < 0.5 else i
+            j = nd.child_count if i else j
+        fr = nd.content.cut_by_index(i, j)
+        yield create_case(info, tag, nd.type, dict(nd.attrs) if nd.attrs else None, fr, None, kind)
 
 
 def wrapper_schema(rng):
